@@ -325,3 +325,40 @@ pub mod verif_hooks {
         }
     }
 }
+
+/// Verification hook H7b (guarded, add-only): the same pass-through wrappers as `verif_hooks`, plus
+/// [`Receiver::try_recv`]. No behaviour of its own.
+#[cfg(scylla_verif)]
+#[allow(missing_docs)]
+pub mod verif_hooks_b {
+    use super::{Receiver, Sender, merge_channel};
+
+    pub struct VerifSender<T>(Sender<T>);
+    pub struct VerifReceiver<T>(Receiver<T>);
+
+    pub fn verif_merge_channel<T>() -> (VerifSender<T>, VerifReceiver<T>) {
+        let (tx, rx) = merge_channel();
+        (VerifSender(tx), VerifReceiver(rx))
+    }
+
+    impl<T> VerifSender<T> {
+        #[allow(clippy::result_unit_err)]
+        pub fn modify<F>(&mut self, f: F) -> Result<(), ()>
+        where
+            F: FnOnce(&mut Option<T>),
+        {
+            self.0.modify(f).map_err(|_| ())
+        }
+    }
+
+    impl<T> VerifReceiver<T> {
+        pub fn recv(&mut self) -> impl std::future::Future<Output = Option<T>> + '_ {
+            self.0.recv()
+        }
+        /// The body of [`Receiver::try_recv`], verbatim. The method itself cannot be called from here:
+        /// outside tests it carries `expect(dead_code)`, which a call would turn into a warning.
+        pub fn try_recv(&mut self) -> Option<T> {
+            self.0.shared.slot.lock().unwrap().take()
+        }
+    }
+}
